@@ -212,7 +212,7 @@ def _run_block(ck, ob, st, stmts, top=False):
                 raise AnalysisError("websocket_mask: unexpected for statement shape (line %s)" % C.line(s))
             init, _cv, cond, inc, body = parts
             dl = st.role("data_len")
-            if not C.kind(init) and cond and _guard_min(cond, dl) is not None:
+            if not C.kind(init) and cond and _split_guard(cond, st) is not None:
                 # for (; data_len >= W; data_len -= W) { ... }  is a word loop whose step runs after the body
                 stmts = (C.inner(body) if C.kind(body) == "CompoundStmt" else [body]) + ([inc] if C.kind(inc) else [])
                 _run_while(ck, ob, st, s, cond, stmts)
@@ -270,7 +270,7 @@ def _run_if(ck, ob, st, s):
     if res and _mentions(cond, {res}) and not _mentions(cond, set(st.roles) - {res}):
         # allocation failure check
         return
-    if _mentions(cond, set(st.roles)):
+    if _mentions(cond, set(st.roles)) and not all(_is_opaque(p_, st) for p_ in _conjuncts(cond)):
         _run_fast_path(ck, ob, st, s, cond, then, els)
         return
     # a configuration test (sizeof(...) >= 8): both outcomes must preserve the invariants
@@ -338,7 +338,7 @@ def _run_fast_path(ck, ob, st, s, cond, then, els):
         else:
             raise AnalysisError("websocket_mask: shortcut return for payload lengths %s (line %s) is not modelled" % (covered, C.line(s)))
     if not handled:
-        if els is None and _guard_min(cond, dl) is not None and st.role("out") is not None:
+        if els is None and _split_guard(cond, st) is not None and st.role("out") is not None:
             # `if (data_len >= W) { one word step }`: analysed like a word loop that runs at most once
             _run_while(ck, ob, st, s, cond, C.inner(then) if C.kind(then) == "CompoundStmt" else [then], once=True)
             return
@@ -378,6 +378,40 @@ def _run_assign(ck, ob, st, s, lhs, rhs):
         st.scalars[e][name] = val
 
 
+def _conjuncts(n):
+    n = C.strip(n)
+    while C.kind(n) == "ImplicitCastExpr" and n.get("castKind") in ("IntegralCast", "IntegralToBoolean"):
+        n = C.strip(C.inner(n)[0])
+    if C.kind(n) == "BinaryOperator" and n.get("opcode") == "&&":
+        return _conjuncts(C.inner(n)[0]) + _conjuncts(C.inner(n)[1])
+    return [n]
+
+
+def _is_opaque(n, st) -> bool:
+    """A side-effect-free predicate that reads no memory and does not involve the lengths (a configuration test such
+    as sizeof(...) >= 8, or a test on pointer *values* such as an alignment check): the analysis explores both outcomes."""
+    for x in C.walk(n):
+        k = C.kind(x)
+        if k in ("CallExpr", "ArraySubscriptExpr", "CompoundAssignOperator", "StmtExpr", "ConditionalOperator"):
+            return False
+        if k == "UnaryOperator" and x.get("opcode") in ("*", "++", "--"):
+            return False
+        if k == "BinaryOperator" and x.get("opcode") in ("=", ","):
+            return False
+    return not _mentions(n, {st.role("data_len"), st.role("mask_len")} - {None})
+
+
+def _split_guard(cond, st):
+    """(K, n_opaque) when cond is `data_len >= K [&& opaque ...]`, else None."""
+    dl = st.role("data_len")
+    parts = _conjuncts(cond)
+    g = [p_ for p_ in parts if _guard_min(p_, dl) is not None]
+    rest = [p_ for p_ in parts if _guard_min(p_, dl) is None]
+    if len(g) != 1 or not all(_is_opaque(r, st) for r in rest):
+        return None
+    return _guard_min(g[0], dl), len(rest)
+
+
 def _guard_min(cond, var):
     pred = _cmp_truth(cond, var)
     if pred is None:
@@ -392,9 +426,10 @@ def _run_while(ck, ob, st, s, cond, body_stmts, once=False):
     dl, dp, op_ = st.role("data_len"), st.role("data"), st.role("out")
     if op_ is None or not st.allocated:
         raise AnalysisError("websocket_mask: processing loop before the output buffer exists (line %s)" % C.line(s))
-    gmin = _guard_min(cond, dl)
-    if gmin is None:
-        raise AnalysisError("websocket_mask: loop guard is not of the form data_len >= K / data_len > K (line %s)" % C.line(s))
+    sg = _split_guard(cond, st)
+    if sg is None:
+        raise AnalysisError("websocket_mask: loop guard is not of the form data_len >= K / data_len > K [&& side-effect-free predicate] (line %s)" % C.line(s))
+    gmin, n_opaque = sg
     st.n_loops += 1
     tag = "loop#%d" % st.n_loops
     offsets = {dp: 0, op_: 0}
@@ -460,7 +495,11 @@ def _run_while(ck, ob, st, s, cond, body_stmts, once=False):
         bad = [(j, stores[e].get(j)) for j in range(Wn) if stores[e].get(j) != want[j]]
         ob("C18.lanes", s, not bad and Wn > 0, "%s, %s-endian layout: stored byte j is data[j] ^ mask[j mod 4] for every j < %d%s" % (tag, e, Wn, (" - first mismatch at byte %d: %r" % bad[0]) if bad else ""), "%s lanes %s: %s" % (tag, e, "ok" if not bad else "byte %d = %r" % bad[0]))
     st.sym = "p"
-    if once:
+    if n_opaque:
+        # the extra predicate (e.g. an alignment test) may be false at any time: the step / loop may not run at all,
+        # so it guarantees nothing about the bytes that remain
+        pass
+    elif once:
         st.rem_upper = None if st.rem_upper is None else max(gmin - 1, st.rem_upper - Wn)
     else:
         st.rem_upper = gmin - 1
@@ -508,6 +547,35 @@ def _run_for(ck, ob, st, s):
         ob("C18.tail", s, st.sym in ("exact", "p") and st.rem_upper is not None and st.rem_upper <= 4, "mask[i] is only correct with i < 4 and phase 0: the loops before the tail leave data_len <= 4 (bound: %s)" % st.rem_upper, "tail bound data_len <= %s" % st.rem_upper)
     st.tail_done = start == 0 and okc and oki
     st.rem_upper = 0
+
+
+def _handler_binds_reference(h: ast.ExceptHandler, chain, refname: str) -> bool:
+    """On every path through the handler body that completes normally (does not raise), the last binding of a name of
+    the copy chain is the reference implementation - decided on the CFG of the handler body, whatever the branch order."""
+    import copy as _copy
+    from ..cfg import build, explore
+
+    class B(ast.NodeTransformer):  # `break` of an inlined selector leaves the handler normally
+        def visit_Break(self, node):
+            return ast.copy_location(ast.Return(value=None), node)
+
+    body = [B().visit(_copy.deepcopy(x)) for x in h.body]
+    fn = ast.FunctionDef(name="_handler", args=ast.arguments(posonlyargs=[], args=[], vararg=None, kwonlyargs=[], kw_defaults=[], kwarg=None, defaults=[]), body=body, decorator_list=[], returns=None, type_params=[])
+    ast.fix_missing_locations(fn)
+    cfg = build(fn)
+
+    def transfer(n, val):
+        if n.kind == "stmt" and isinstance(n.ast, (ast.Assign, ast.AnnAssign)) and getattr(n.ast, "value", None) is not None:
+            tg = n.ast.targets if isinstance(n.ast, ast.Assign) else [n.ast.target]
+            if any(isinstance(t, ast.Name) and t.id in chain for t in tg):
+                return "ref" if (isinstance(n.ast.value, ast.Name) and n.ast.value.id == refname) else "other"
+        if n.kind == "stmt" and isinstance(n.ast, (ast.Import, ast.ImportFrom)) and any((a.asname or a.name) in chain for a in n.ast.names):
+            return "other"
+        return val
+
+    seen = explore(cfg, "unbound", transfer, lambda t: False, follow_exc=False)
+    finals = {v for _f, v in seen.get(cfg.exit.id, ())}
+    return bool(finals) and finals == {"ref"}
 
 
 # ---------------------------------------------------------------------------
@@ -699,10 +767,8 @@ def py_rules(ck, table):
                 for h in t.handlers:
                     if q.exc_is_caught("ImportError", q.handler_names(h)):
                         # the handler ends (possibly before a `break` of an inlined selector) by binding the reference to a name of the chain
-                        tail = [x for x in h.body if not isinstance(x, (ast.Break, ast.Pass))]
-                        last = tail[-1] if tail else None
-                        okf = isinstance(last, ast.Assign) and any(isinstance(tt, ast.Name) and tt.id in chain for tt in last.targets) and isinstance(last.value, ast.Name) and last.value.id == ref.name
-            ck.ob(R, None, st_, okf, "when the extension cannot be imported the reference implementation is used (ImportError handler ends by binding it)", construct="fallback for " + q.unparse(st_), file=U)
+                        okf = _handler_binds_reference(h, chain, ref.name)
+            ck.ob(R, None, st_, okf, "when the extension cannot be imported the reference implementation is used (every path through the ImportError handler that does not re-raise binds it)", construct="fallback for " + q.unparse(st_), file=U)
         else:
             ck.ob(R, None, st_, False, "_websocket_mask is not redefined", construct="def " + NAME, file=U)
     ck.ob(R, None, mod.tree, n_imp >= 1, "the native routine is selected when available", construct="native import present: %d" % n_imp, file=U)
@@ -761,6 +827,13 @@ def _drop_loop4(src):
     return src[:i] + src[j + 1:]
 
 
+def _align_guards(src):
+    a, b = "if (sizeof(size_t) >= 8)", "while (data_len >= 4)"
+    if a not in src or b not in src:
+        return None
+    return src.replace(a, "if (sizeof(size_t) >= 8 && ((uintptr_t)data & 7) == 0)", 1).replace(b, "while (data_len >= 4 && ((uintptr_t)data & 3) == 0)", 1)
+
+
 def _c_mutant(old, new, count=1):
     def make(repo):
         src_path = os.path.join(repo.root, CREL)
@@ -807,6 +880,7 @@ MUTANTS = [
     ("seeded C18-adv1: empty-payload fast path before the mask length test", _c_mutant("    if (mask_len != 4)", "    if (data_len == 0)\n    {\n        return PyBytes_FromStringAndSize(NULL, 0);\n    }\n\n    if (mask_len != 4)"), "C18.mask-len"),
     ("C: short payloads (< 4 bytes) take a shortcut that skips the mask length test", _c_mutant("    if (mask_len != 4)", "    if (!data_len)\n        return PyBytes_FromStringAndSize(\"\", 0);\n    if (mask_len != 4)"), "C18.mask-len"),
     ("seeded C18-adv4: a 16-bit step after the 32-bit loop, byte tail still indexes mask[i] from 0", _c_mutant("    for (i = 0; i < data_len; i++)", "    if (data_len >= 2)\n    {\n        ((uint16_t *)buf)[0] = ((uint16_t *)data)[0] ^ (uint16_t)uint32_mask;\n        data += 2;\n        buf += 2;\n        data_len -= 2;\n    }\n\n    for (i = 0; i < data_len; i++)"), "C18.tail"),
+    ("seeded C18-adv5: word loops only for aligned data, byte tail (mask[i]) then handles payloads of any length", _c_mutant(_align_guards, None), "C18.tail"),
     ("C: 8-byte loop advances data by 4", _c_mutant("data += 8;", "data += 4;"), "C18.stride"),
     ("C: 8-byte loop runs while data_len > 0", _c_mutant("while (data_len >= 8)", "while (data_len > 0)"), "C18.guard"),
     ("C: 4-byte loop runs while data_len >= 2", _c_mutant("while (data_len >= 4)", "while (data_len >= 2)"), "C18.guard"),
